@@ -14,6 +14,7 @@ import (
 	"fmt"
 	"go/types"
 	"sort"
+	"strconv"
 	"strings"
 
 	"golang.org/x/tools/go/ssa"
@@ -25,11 +26,11 @@ func init() {
 }
 
 type davNames struct {
-	pkg, short                                   string
+	pkg, short                                      string
 	homeSetPath, listColl, getColl, getObj, listObj string
-	createColl, putObj                             string
-	collType, objType                              string
-	deleteOps                                      map[int]string // level -> backend op ("" = refused 403); -1 key = every level
+	createColl, putObj                              string
+	collType, objType                               string
+	deleteOps                                       map[int]string // level -> backend op ("" = refused 403); -1 key = every level
 }
 
 func isIntKind(n *types.Named) bool {
@@ -333,6 +334,7 @@ func runC11(c *Ctx, pr *PropertyRun) {
 
 	c11Accounting(c, pr)
 	propSetTables(c, pr, "C11", []string{pkgWebdav, pkgCaldav, pkgCarddav})
+	freshPropTableRule(c, pr, "C11")
 	// property functions are run long after the table was built
 	loopCaptureRule(c, pr, "C11")
 
@@ -343,8 +345,10 @@ func runC11(c *Ctx, pr *PropertyRun) {
 	pr.Rules = append(pr.Rules, ms)
 	if fn := p.MustFunc(ms, pkgInternal, "ServeMultiStatus"); fn != nil {
 		spec := DTXSpec{Name: "ServeMultiStatus", Entry: fn,
-			Setup:   func(in *Interp) { in.Models = append(in.Models, httpServerModels) },
-			Args:    func(in *Interp) []Val { return []Val{Opaque{"w", fn.Params[0].Type()}, Opaque{"ms", fn.Params[1].Type()}} },
+			Setup: func(in *Interp) { in.Models = append(in.Models, httpServerModels) },
+			Args: func(in *Interp) []Val {
+				return []Val{Opaque{"w", fn.Params[0].Type()}, Opaque{"ms", fn.Params[1].Type()}}
+			},
 			Observe: func(in *Interp, res Val, pan *panicOutcome) string {
 				var seq []string
 				for _, e := range in.Trace {
@@ -407,25 +411,15 @@ func runC11(c *Ctx, pr *PropertyRun) {
 					if !env.Bool("fails:" + ct) {
 						isXML = env.Eq(S(ct), K("application/xml")) || env.Eq(S(ct), K("text/xml"))
 					}
-					if env.Decided("body-empty") && env.Bool("body-empty") {
-						// "an empty body returns all of them with values"; with an
-						// XML content type the generic handler reports the decode
-						// error instead: both are accepted for that corner
-						if isXML {
-							return []string{"respond(\"allprop\") -> 207", " -> 400"}, true
-						}
+					// "an empty body returns all of them with values",
+					// whatever the content type says
+					if env.Bool("body-empty") {
 						return []string{"respond(\"allprop\") -> 207"}, true
 					}
-					if isXML {
-						if env.Bool("fails:xml.Decode") {
-							return []string{" -> 400"}, true
-						}
-						return []string{"respond(\"decoded\") -> 207"}, true
-					}
-					if !env.Bool("body-empty") {
+					if !isXML || env.Bool("fails:xml.Decode") {
 						return []string{" -> 400"}, true
 					}
-					return []string{"respond(\"allprop\") -> 207"}, true
+					return []string{"respond(\"decoded\") -> 207"}, true
 				}
 				return []string{" -> 405"}, true
 			}}
@@ -560,6 +554,38 @@ func c11Accounting(c *Ctx, pr *PropertyRun) {
 	}
 	propT := p.NamedType(pkgInternal, "Prop")
 	pfT := p.NamedType(pkgInternal, "PropFind")
+	propStatT := p.NamedType(pkgInternal, "PropStat")
+	setField := func(s Struct, field string, f func(Val) Val) {
+		st := s.T.Underlying().(*types.Struct)
+		for i := 0; i < st.NumFields(); i++ {
+			if st.Field(i).Name() == field {
+				s.F[i].Set(f(s.F[i].Get()))
+			}
+		}
+	}
+	// what a response has been given, read off the response itself (a second
+	// response built on the way does not count)
+	given := func(in *Interp, resp Val) []string {
+		var out []string
+		for _, psv := range elemsOf(in, fieldVal(resp, "PropStats")) {
+			code := keyOf(fieldVal(fieldVal(psv, "Status"), "Code"))
+			for _, rv := range elemsOf(in, fieldVal(fieldVal(psv, "Prop"), "Raw")) {
+				what := "?"
+				if rs, ok := rv.(Struct); ok {
+					if ov, isI := rs.F[2].Get().(Iface); isI {
+						if k, isK := ov.V.(Konst); isK {
+							if sv, isS := constStringVal(k); isS {
+								what = strings.TrimPrefix(sv, "recorded:")
+							}
+						}
+					}
+				}
+				c, _ := strconv.Atoi(code)
+				out = append(out, Effect{Name: "EncodeProp", Args: []Val{kInt(int64(c)), kStr(what)}}.String())
+			}
+		}
+		return out
+	}
 	names := []string{"known", "unknown"}
 	spec := DTXSpec{Name: "NewPropFindResponse", Entry: fn,
 		Sym: SymSpec{},
@@ -576,12 +602,43 @@ func c11Accounting(c *Ctx, pr *PropertyRun) {
 								if len(elemsOf(in, st.F[1].Get())) > 0 {
 									what = "the-request's-own-element-with-its-content<" + rawLocalName(st) + ">"
 								}
+								// an entry read back from another response
+								if ov, isI := st.F[2].Get().(Iface); isI {
+									if k, isK := ov.V.(Konst); isK {
+										if sv, isS := constStringVal(k); isS && strings.HasPrefix(sv, "recorded:") {
+											what = strings.TrimPrefix(sv, "recorded:")
+										}
+									}
+								}
 							}
 						} else {
 							what = keyOf(iv.V)
 						}
 					}
 					in.effect("EncodeProp", site.Pos(), kInt(code), kStr(what))
+					// keep what the receiver has been given: a caller that
+					// builds one response from another reads it back
+					if rp, ok := args[0].(Ptr); ok {
+						if rs, ok := rp.C.Get().(Struct); ok {
+							rec := zeroOf(rawT).(Struct)
+							rec.F[2].Set(Iface{Dyn: types.Typ[types.String], V: kStr("recorded:" + what)})
+							ps := zeroOf(propStatT).(Struct)
+							setField(ps, "Status", func(v Val) Val {
+								st := v.(Struct)
+								setField(st, "Code", func(Val) Val { return kInt(code) })
+								return st
+							})
+							setField(ps, "Prop", func(v Val) Val {
+								pv := v.(Struct)
+								setField(pv, "Raw", func(Val) Val { return Slice{E: []*Cell{{V: rec, T: rawT}}, NonNil: true} })
+								return pv
+							})
+							setField(rs, "PropStats", func(v Val) Val {
+								sl, _ := v.(Slice)
+								return Slice{E: append(append([]*Cell{}, sl.E...), &Cell{V: ps, T: propStatT}), NonNil: true}
+							})
+						}
+					}
 					return kNil, true
 				}
 				// calling a getter
@@ -621,6 +678,16 @@ func c11Accounting(c *Ctx, pr *PropertyRun) {
 			}
 			if in.truth(LazyBool{"has-allprop"}) {
 				set("AllProp", marker())
+				// <include>: properties wanted in addition to allprop
+				if incT := p.NamedType(pkgInternal, "Include"); incT != nil {
+					if k := in.chooseLabeled("include", []string{"none", "known", "unknown"}); k > 0 {
+						iv := zeroOf(incT).(Struct)
+						setField(iv, "Raw", func(Val) Val {
+							return Slice{E: []*Cell{{V: mkRaw(in, names[k-1]), T: rawT}}, NonNil: true}
+						})
+						set("Include", Ptr{&Cell{V: iv, T: incT}})
+					}
+				}
 			}
 			if in.truth(LazyBool{"has-prop"}) {
 				n := in.chooseInt("requested", 3)
@@ -653,7 +720,7 @@ func c11Accounting(c *Ctx, pr *PropertyRun) {
 				}
 				return "error"
 			}
-			eff := effectNames(in.Trace, "EncodeProp")
+			eff := given(in, t.E[0])
 			sort.Strings(eff) // map iteration order is not part of the contract
 			href := "?"
 			if h := fieldVal(t.E[0], "Hrefs"); h != nil {
@@ -693,6 +760,15 @@ func c11Accounting(c *Ctx, pr *PropertyRun) {
 					eff = append(eff, entry(200, "\"value:known\""))
 				}
 				eff = append(eff, entry(200, "resourcetype-value"))
+				// allprop already returns every property the resource has: an
+				// included one is still reported exactly once; one it does not
+				// have may be reported as 404 or left out
+				if env.Decided("include") && env.ch.choose("include", 3, nil) == 2 {
+					alt := append(append([]string{}, eff...), entry(404, "empty<unknown>"))
+					sort.Strings(eff)
+					sort.Strings(alt)
+					return []string{"href=path " + strings.Join(eff, " "), "href=path " + strings.Join(alt, " ")}, true
+				}
 			default:
 				n := env.ch.choose("requested", 3, nil)
 				for i := 0; i < n; i++ {
@@ -790,6 +866,9 @@ func runC12(c *Ctx, pr *PropertyRun) {
 	pr.Trusted = append(pr.Trusted, "golang.org/x/tools/go/ssa v0.29.0")
 	c12Classifier(c, pr)
 	davScopeTables(c, pr, "C12", false)
+	// the paths of the discovery chain are decoded strings: they reach the
+	// next request as they are (shared with C05.no-reparse)
+	urlParseRule(c, pr, "C12", nil)
 	ops := NewRule("C12", "C12.level-ops", "level -> backend operation (or refusal) for every adapter method, with the request path unchanged (E2)")
 	ops.Exhaustive = true
 	pr.Rules = append(pr.Rules, ops)
